@@ -823,7 +823,7 @@ func c05Reachable(b *c05Base, data []byte) map[string]uint64 {
 	return m
 }
 
-func c05RunCorrupt(t *testing.T, b *c05Base, c *c05CCase, budget int) {
+func c05RunCorrupt(t *testing.T, b *c05Base, c *c05CCase, budget int, skipCycles bool) (status string) {
 	w := &c05World{t: t, dir: filepath.Join(t.TempDir(), "tele"), f: new(file), ctrs: map[string]*Counter{}, short: map[string]string{}, now: c05T1}
 	c05w = w
 	telemetry.Default = telemetry.NewDir(w.dir)
@@ -854,24 +854,6 @@ func c05RunCorrupt(t *testing.T, b *c05Base, c *c05CCase, budget int) {
 		memmap, munmap = mmap.Mmap, mmap.Munmap
 		os.RemoveAll(filepath.Dir(w.dir))
 	}()
-	before := c05Reachable(b, orig)
-	out := rt.M{"kind": "case", "id": c.ID, "open": "", "ret": "ok", "steps": 0, "where": "", "text": "", "mode": "", "dP": 0, "dE": 0,
-		"others": false, "untouched": false, "dbl": false, "lost": "", "size": len(orig), "limClass": c05LimitClass(b, orig), "damage": desc, "chain": "-"}
-	ret, n, where, text := c05h.Run("open", budget, func() { w.f.rotate1() })
-	out["steps"] = n
-	if ret != "ok" {
-		out["ret"], out["where"], out["text"], out["stage"] = ret, where, text, "open"
-		rt.Out(out)
-		return
-	}
-	switch {
-	case w.f.err != nil && w.f.current.Raw() == nil:
-		out["open"] = "parks"
-	case w.f.err == nil && w.f.current.Raw() != nil:
-		out["open"] = "opens"
-	default:
-		out["open"] = "inconsistent"
-	}
 	name, short := "", ""
 	switch c.Op {
 	case "addE":
@@ -881,7 +863,30 @@ func c05RunCorrupt(t *testing.T, b *c05Base, c *c05CCase, budget int) {
 	case "addM":
 		name, short = b.nameM, b.nameM
 	}
-	out["chain"] = c05ChainClass(b, orig, name)
+	chain := c05ChainClass(b, orig, name)
+	if skipCycles && chain == "cycle" {
+		rt.Out(rt.M{"kind": "skipped", "id": c.ID})
+		return "skipped"
+	}
+	before := c05Reachable(b, orig)
+	out := rt.M{"kind": "case", "id": c.ID, "open": "", "ret": "ok", "steps": 0, "where": "", "text": "", "mode": "", "dP": 0, "dE": 0,
+		"others": false, "untouched": false, "dbl": false, "lost": "", "size": len(orig), "limClass": c05LimitClass(b, orig), "damage": desc, "chain": "-"}
+	ret, n, where, text := c05h.Run("open", budget, func() { w.f.rotate1() })
+	out["steps"] = n
+	if ret != "ok" {
+		out["ret"], out["where"], out["text"], out["stage"] = ret, where, text, "open"
+		rt.Out(out)
+		return ret
+	}
+	switch {
+	case w.f.err != nil && w.f.current.Raw() == nil:
+		out["open"] = "parks"
+	case w.f.err == nil && w.f.current.Raw() != nil:
+		out["open"] = "opens"
+	default:
+		out["open"] = "inconsistent"
+	}
+	out["chain"] = chain
 	ctr := &Counter{name: name, file: w.f}
 	const amount = 3
 	ret, n, where, text = c05h.Run(c.Op, budget, func() { ctr.Add(amount) })
@@ -894,7 +899,7 @@ func c05RunCorrupt(t *testing.T, b *c05Base, c *c05CCase, budget int) {
 		out["lost"] = "count file unreadable: " + err.Error()
 		out["others"] = true
 		rt.Out(out)
-		return
+		return ret
 	}
 	out["untouched"] = bytes.Equal(after, orig)
 	out["dbl"] = w.badUnmap > 0
@@ -927,13 +932,15 @@ func c05RunCorrupt(t *testing.T, b *c05Base, c *c05CCase, budget int) {
 		out["mode"] = "other"
 	}
 	rt.Out(out)
+	return ret
 }
 
 func TestVerifC05Corrupt(t *testing.T) {
 	defer rt.Flush()
 	var in struct {
-		Cases  []c05CCase `json:"cases"`
-		Budget int        `json:"budget"`
+		Cases    []c05CCase `json:"cases"`
+		Budget   int        `json:"budget"`
+		MaxHangs int        `json:"maxHangs"` // a call that never returns costs a whole step budget: stop after so many
 	}
 	if err := rt.In(&in); err != nil {
 		t.Skip(err)
@@ -944,7 +951,19 @@ func TestVerifC05Corrupt(t *testing.T) {
 	b := c05MakeBase(t)
 	rt.Out(rt.M{"kind": "base", "hdrLen": b.hdrLen, "offE": b.offE, "offC": b.offC, "offV": b.offV, "bE": b.bE, "bN": b.bN, "bV": b.bV,
 		"limit": b.limit, "size": len(b.data), "nameC": b.nameC, "nameN": b.nameN, "nameM": b.nameM})
+	if in.MaxHangs == 0 {
+		in.MaxHangs = 100
+	}
+	hangs := 0
 	for i := range in.Cases {
-		c05RunCorrupt(t, b, &in.Cases[i], in.Budget)
+		if hangs >= 5*in.MaxHangs {
+			rt.Out(rt.M{"kind": "skipped", "id": in.Cases[i].ID})
+			continue
+		}
+		// once the cap is reached, files whose chain is cyclic (independent walk) are
+		// not run any more; everything else still is
+		if c05RunCorrupt(t, b, &in.Cases[i], in.Budget, hangs >= in.MaxHangs) == "hang" {
+			hangs++
+		}
 	}
 }
